@@ -21,6 +21,8 @@ import (
 	pb "github.com/marekgalovic/anndb/protobuf"
 	uuid "github.com/satori/go.uuid"
 	"google.golang.org/grpc"
+	"google.golang.org/grpc/codes"
+	"google.golang.org/grpc/status"
 )
 
 func init() { runners["C12"] = runC12 }
@@ -111,8 +113,8 @@ func items(in []c12Item) []*pb.BatchItem {
 	return out
 }
 
-func (c *c12Client) send(r c12Req) error {
-	ctx, cancel := context.WithTimeout(context.Background(), 4*time.Second)
+func (c *c12Client) send(r c12Req, patience time.Duration) error {
+	ctx, cancel := context.WithTimeout(context.Background(), patience)
 	defer cancel()
 	drain := func(recv func() error) error {
 		for {
@@ -237,21 +239,42 @@ func runC12Serve(c *c12Case, st *stats) {
 	}
 	for i, r := range c.Reqs {
 		c12Progress(c.Dir, i)
-		err := cl.send(r)
+		err := cl.send(r, 4*time.Second)
+		unanswered := false
+		// (the server hands its own context's expiry back as a plain error: the same thing seen from the other side)
+		late := func(err error) bool {
+			return err != nil && (status.Code(err) == codes.DeadlineExceeded || strings.Contains(err.Error(), "context deadline exceeded"))
+		}
+		if late(err) {
+			// no answer within 4 s: on a loaded machine that can be slowness, so the request is repeated with a long
+			// deadline; a request that is still unanswered then has wedged whatever serves it (a search that spins, an
+			// apply loop that never finishes the previous entry)
+			st.count("repeated-after-4s-without-answer")
+			err = cl.send(r, 25*time.Second)
+			unanswered = late(err)
+		}
 		out := "ok"
 		if err != nil {
 			out = "error"
 		}
-		if !cl.alive() {
+		if unanswered || !cl.alive() {
 			out = "no-answer"
 		}
 		c.Outcomes = append(c.Outcomes, out)
 		if out == "no-answer" {
-			st.ImplFailures = append(st.ImplFailures, implFailure{Case: i, What: fmt.Sprintf("after request %d (%s, %s) the server no longer answers (wedged)", i, r.Kind, r.Tag), Key: "wedged:" + r.Kind + ":" + r.Tag, Input: *c})
+			what, key := fmt.Sprintf("after request %d (%s, %s) the server no longer answers (wedged)", i, r.Kind, r.Tag), "wedged:"+r.Kind+":"+r.Tag
+			if unanswered {
+				what, key = fmt.Sprintf("request %d (%s, %s) receives neither a response nor an error: unanswered after 4 s and again after 25 s", i, r.Kind, r.Tag), "unanswered:"+r.Kind+":"+r.Tag
+			}
+			st.ImplFailures = append(st.ImplFailures, implFailure{Case: i, What: what, Key: key, Input: *c})
 			break
 		}
 	}
 	c12Progress(c.Dir, len(c.Reqs))
+	if n := len(c.Outcomes); n > 0 && c.Outcomes[n-1] == "no-answer" {
+		// a wedged server is not asked for snapshots (that would wait for the wedged loop): it is killed as it is
+		return
+	}
 	// every partition compacts its log into a snapshot (as the periodic snapshot would): the restart then has to load it
 	for _, d := range cl.dss {
 		ds, err := srv.VerifDatasetManager().Get(uuid.FromBytesOrNil(d.GetId()))
@@ -315,8 +338,14 @@ func runC12Restart(c *c12Case, st *stats) {
 		c.Restart = "the restarted server stopped answering"
 		return
 	}
-	c.Restart = "ok"
-	srv.Stop()
+	stopped := make(chan struct{})
+	go func() { srv.Stop(); close(stopped) }()
+	select {
+	case <-stopped:
+		c.Restart = "ok"
+	case <-time.After(20 * time.Second):
+		c.Restart = "the restarted server does not stop within 20 s: a loop is stuck on what it replayed from the log"
+	}
 }
 
 // ---- request generation ----
@@ -337,6 +366,15 @@ func genC12Reqs(r *rng, n int) []c12Req {
 		k := id()
 		known = append(known, k)
 		reqs = append(reqs, c12Req{Kind: "Insert", Tag: "valid", Ds: "d0", Id: k, Value: vec(3), Meta: map[string]string{"n": fmt.Sprint(i)}})
+	}
+	// enough items in d0 (from a grid of 17^3 points: repeated vectors and tied distances are certain) for the entry
+	// point of both partitions to sit on an upper level, so that every later request walks the upper levels first
+	for i := 0; i < 3; i++ {
+		reqs = append(reqs, c12Req{Kind: "BatchInsert", Tag: "valid", Ds: "d0", Items: manyItems(r, 60, 3)})
+	}
+	same := vec(3)
+	for i := 0; i < 12; i++ {
+		reqs = append(reqs, c12Req{Kind: "Insert", Tag: "valid", Ds: "d0", Id: id(), Value: same})
 	}
 	// d2: a cosine dataset receiving numerically parallel vectors - the float32 cosine of v and c*v rounds to either
 	// side of 1, so the raw kernel value 1 - cos can be a tiny negative number; plus a repeated and an opposite vector
@@ -420,6 +458,9 @@ func genC12Reqs(r *rng, n int) []c12Req {
 		{Kind: "Search", Tag: "wrong-dimension", Ds: "d0", Value: vec(8), K: 3},
 		{Kind: "Search", Tag: "empty-query", Ds: "d0", K: 3},
 		{Kind: "Search", Tag: "nan-query", Ds: "d0", Value: []uint32{nan, nan, nan}, K: 3},
+		{Kind: "Search", Tag: "inf-query", Ds: "d0", Value: []uint32{inf, 0, inf}, K: 3},
+		{Kind: "Search", Tag: "huge-query", Ds: "d0", Value: []uint32{big, big, big}, K: 3},
+		{Kind: "SearchPartitions", Tag: "nan-query", Ds: "d0", Part: "p0,p1", Value: []uint32{nan, 0, 0}, K: 3},
 		{Kind: "Search", Tag: "unknown-dataset", Ds: "unknown", Value: vec(3), K: 3},
 		{Kind: "SearchPartitions", Tag: "wrong-dimension", Ds: "d0", Part: "p0,p1", Value: vec(11), K: 3},
 		{Kind: "SearchPartitions", Tag: "empty-query", Ds: "d0", Part: "p0", K: 3},
@@ -560,6 +601,7 @@ func coqC12Req(r c12Req) string {
 func runC12(a *args) error {
 	quietLogs()
 	isoVmemKB = 30000000
+	isoTimeout = 240 * time.Second // a request is given 4 s and then 25 s before it counts as unanswered
 	st := newStats("request sequences against a real anndb.Server over gRPC on loopback: two ordinary datasets and a few items, a cosine dataset receiving numerically parallel, repeated and opposite vectors (6 groups of 3..5 inserts and a search), then every entry of a catalogue of malformed requests (zero / huge partition, replica and dimension counts, unknown metric, malformed / empty / duplicate ids at the single, batch and partition-batch RPCs, wrong-dimension and empty vectors, NaN / Inf / huge values, over-long and too many metadata entries, empty and oversized batches, k = 0 and k = 4e9, wrong-dimension queries on Search and SearchPartitions, unknown / malformed dataset and partition ids) in seed-dependent order with valid traffic in between; liveness checked after every request; then the process is killed and a new one started over the same store, which must come up and answer a search on every dataset; non-trivial = a sequence in which >= 10 malformed requests were sent; distinct by hash of the sequence")
 	if a.replay != "" {
 		var c c12Case
